@@ -194,7 +194,7 @@ class C07(object):
             # the grains move between two assignments (refinement, set_ubi), as in the makemap sequence
             # refine -> save -> assign again: the second assignment must use the grains as they are then
             desc["via_refinepositions"] = rnd.choice([0, 0, 0, 1, 3]) if (ngr and n >= 3) else 0
-            desc["after_assign"] = rnd.choice([None, "refineubis", "gof", "both"])
+            desc["after_assign"] = rnd.choice([None, "refineubis", "gof", "both", "scoreonly"])
             if rnd.random() < 0.4:
                 # the geometry was something else when the object assigned before (a parameter file loaded later, a fitted
                 # tilt): the assignment that counts is done with the parameters as they are then
@@ -223,6 +223,8 @@ class C07(object):
                 for _ in range(rnd.randint(1, 4)):
                     gv[rnd.randrange(n), rnd.randrange(3) if rnd.random() < 0.7 else slice(None)] = rnd.choice([float("nan"), float("inf"), float("-inf")])
             desc["gv"] = gv.tolist()
+            if route == "fight":
+                desc["gv_replaced"] = rnd.random() < 0.25
             if route == "fight" and rnd.random() < 0.5:
                 # the same indexer object has competed before, with other grain lists and tolerances
                 pre = []
@@ -367,7 +369,14 @@ class C07(object):
         via_save = 0
         with contextlib.redirect_stdout(io.StringIO()):
             # the tolerance is set by plain attribute assignment after construction, as the library's own drivers do
-            ix = indexing.indexer(gv=gv, hkl_tol=(tol if desc.get("fight_tol_at_construction", True) else 0.777))
+            if desc.get("gv_replaced") and n:
+                # the indexer was made for other g-vectors of as many peaks (another grain position); they are replaced by attribute
+                # assignment before the competition, as the fitting drivers do
+                g0_ = np.random.default_rng(n + 5).normal(size=(n, 3))
+                ix = indexing.indexer(gv=g0_, hkl_tol=(tol if desc.get("fight_tol_at_construction", True) else 0.777))
+                ix.gv = gv
+            else:
+                ix = indexing.indexer(gv=gv, hkl_tol=(tol if desc.get("fight_tol_at_construction", True) else 0.777))
             try:
                 for pre in desc.get("fight_pre", []):
                     ix.ubis = [ubis[gi] for gi in pre["order"]]
@@ -573,6 +582,22 @@ class C07(object):
                             return "grain %s: npks is %d, %d peaks carry its label" % (nm_, int(g_.npks), int((lab == nm_).sum()))
                     return None
                 later_fail = counts_()
+                if later_fail is None and desc.get("after_assign") == "scoreonly":
+                    # scoring the grains (with omega allowed to float within the step, the makemap default) changes no grain
+                    before_ = {k_: np.array(g_.ubi, copy=True) for k_, g_ in rg.grains.items()}
+                    of_ = rg.OMEGA_FLOAT
+                    try:
+                        rg.OMEGA_FLOAT = True
+                        with np.errstate(all="ignore"):
+                            rg.refineubis(quiet=True, scoreonly=True)
+                    except Exception:
+                        pass
+                    finally:
+                        rg.OMEGA_FLOAT = of_
+                    for k_, g_ in rg.grains.items():
+                        if np.asarray(g_.ubi).tobytes() != before_[k_].tobytes():
+                            later_fail = "refineubis(scoreonly=True) changed the matrix of grain %s" % (k_[0],)
+                            break
                 if later_fail is None and desc.get("after_assign") in ("refineubis", "both"):
                     try:
                         rg.refineubis(quiet=True)
